@@ -11,7 +11,7 @@ def run(ctx):
     scs = []
     for i, (_, aws, only, fn, exp) in enumerate(raw):
         scs.append({'kind': 'gather', 'aws': aws, 'only': only, 'fn': fn, 'form': ['coro', 'task', 'mixed'][i % 3],
-                    'yield0': i % 2 == 0})
+                    'yield0': i % 2 == 0, 'warm': (i // 6) % 13})
     if len(scs) < 2000:
         raise core.MachineryError('GatherGen produced only %d cases' % len(scs))
     outs = ['ok', 'Base', 'Sub', 'Unrel', 'BaseOnly']
@@ -21,7 +21,8 @@ def run(ctx):
         k = rng.randint(n + 1, 5)
         extra.append({'kind': 'gather', 'aws': [[rng.choice([0, 1, 2, 3]), rng.choice(outs)] for _ in range(k)],
                       'only': rng.choice(onlys), 'fn': rng.choice(['gather_excs', 'raise_first_exc']),
-                      'form': rng.choice(['coro', 'task', 'mixed']), 'yield0': rng.random() < 0.5})
+                      'form': rng.choice(['coro', 'task', 'mixed']), 'yield0': rng.random() < 0.5,
+                      'warm': rng.choice([0, 0, 3, 5, 6, 7, 8, 9, 10, 95, 96, 97])})
     for fam, part in (('tlc_enumerated', scs), ('random_longer', extra)):
         for off in range(0, len(part), 8000):
             ctx.run_and_validate(DRIVER, COMP, 'GatherTrace', part[off:off + 8000], fam,
